@@ -204,6 +204,17 @@ def inputs(ctx):
                     {"s": 1000000, "e": 2000000, "nodes": nodes}, {"s": 3000000, "e": 4000000, "nodes": [["t", "next"]]}]}],
                     "styles": {"st1": {"color": "green"}}}, "opts": {}, "force": ""})
                 n += 1
+    # style names that differ only in punctuation (whatever a writer does to make ids of them, the ids
+    # stay distinct and every reference finds exactly one definition)
+    for a, b in (("speaker:1", "speaker_1"), ("a&b", "a<b"), ("a b", "a_b"), ("1st", "_1st"), ("x.y", "x-y"), ("Caf\u00e9", "Cafe"),
+                 ("st", "ST"), ("a/b", "a\\b")):
+        styles = {a: {"color": "red"}, b: {"color": "blue"}}
+        caps = [{"s": 1000000, "e": 2000000, "style": {"class": a}, "nodes": [["t", "one "], ["s", True, {"class": b, "italics": True}],
+                                                                              ["t", "two"], ["s", False, {"class": b, "italics": True}]]},
+                {"s": 3000000, "e": 4000000, "style": {"class": b}, "nodes": [["t", "three"]]}]
+        for w in DW:
+            ins.append({"id": "v%d" % n, "writer": w, "set": {"langs": [{"lang": "en-US", "caps": caps}], "styles": styles}, "opts": {}, "force": ""})
+            n += 1
     # a language without captions is still a written language; cue timing shapes (same start and
     # different ends, equal spans that are not consecutive) for the writers that merge
     for w in DW:
